@@ -85,7 +85,7 @@ PROPS = {
                                         gen.gen_history_cases(seed + 3, 4000 if tier == 'thorough' else 300) +
                                         gen.gen_descr_cases(seed + 4, 4000 if tier == 'thorough' else 300) +
                                         gen.gen_def_cases(seed + 5, 4000 if tier == 'thorough' else 300) +
-                                        long_c09_cases(seed + 6, 'quick')), flavours=['c', 'cxx'],
+                                        long_c09_cases(seed + 6, 'quick')), flavours=['c', 'cxx', 'c-plain'],
                 rule='hostile stream (arbitrary byte strings and mutated texts as descriptions, 150-1000 character symbol names in every error message, 70-260 terminals with dense/sparse/huge codes, arbitrary int token sequences incl. undeclared and negative codes, extreme setter values, all debug levels) plus samples of every other case family, on the C and the C++ build under ASan+UBSan with real frees and a 20 s watchdog per case; a sanitizer report, abort, non-zero exit or timeout is a violation; message length <= 200',
                 assumptions=['partial by nature: absence of sanitizer reports on the explored inputs, not a proof of memory safety of the pointer code',
                              'Lean carries only the decision logic behind bounds (recovery index arithmetic is validated by the C06/C07 checks, containers by C19)'],
